@@ -54,9 +54,37 @@ def get_index(dirs):
     return _index_cache[key]
 
 
+def apply_variant(sc, var):
+    """A variant overrides parts of the sidecar (closure annotations, patches, hints of named fns) so that a contract can
+    follow a harmless re-typing of the code (e.g. a closure that now returns Option<&T> instead of bool)."""
+    import copy
+    sc = copy.deepcopy(sc)
+    fns = {f.get("id", f["path"]): f for f in sc.get("fn", [])}
+    for ov in var.get("fn", []):
+        f = fns.get(ov["id"])
+        if f is None:
+            raise Undecided(f"variant {var.get('name')} names unknown fn id {ov['id']}")
+        for k, v in ov.items():
+            if k == "id":
+                continue
+            if k == "closure":
+                cl = {c["ordinal"]: c for c in f.get("closure", [])}
+                for c in v:
+                    cl[c["ordinal"]] = c
+                f["closure"] = [cl[k2] for k2 in sorted(cl)]
+            else:
+                f[k] = v
+    return sc
+
+
 class Unit:
-    def __init__(self, sidecar_path):
+    def __init__(self, sidecar_path, variant=None):
         self.sc = load_sidecar(sidecar_path)
+        self.variant = None
+        if variant is not None:
+            var = self.sc.get("variant", [])[variant]
+            self.variant = var.get("name", str(variant))
+            self.sc = apply_variant(self.sc, var)
         self.name = self.sc.get("unit") or os.path.splitext(os.path.basename(sidecar_path))[0]
         self.prop = self.sc["property"]
         self.text = None
